@@ -270,6 +270,54 @@ def rec_case(draw, max_obj=5, max_sp=4, min_obj=1, min_sp=1, costs="coherent", l
 
 
 @st.composite
+def many_orders_case(draw, nfam=5, max_obj=4, max_sp=2):
+    """Few leaves carrying one or two families each out of `nfam`: the precedence constraints are so few that the
+    families admit dozens of root orders (5 families: 30..120), all of which the ordered solvers have to explore."""
+    otree, stree, los = draw(trees_and_leaves(max_obj, max_sp, 2, 1))
+    fams = [f"g{i}" for i in range(nfam)]
+    leaves = list(los)
+    order = draw(st.permutations(fams))
+    syn = {l: [] for l in leaves}
+    for i, f in enumerate(order):
+        # every family on one leaf (drawn), so that all of them occur; a leaf holds at most two, in hidden order
+        cands = [l for l in leaves if len(syn[l]) < 2] or leaves
+        syn[cands[draw(st.integers(0, len(cands) - 1))]].append(f)
+    for l in leaves:
+        if not syn[l]:
+            syn[l] = [order[draw(st.integers(0, nfam - 1))]]
+    return {
+        "object_tree": nested_to_newick(otree, "O"),
+        "species_tree": nested_to_newick(stree, "S"),
+        "leaf_object_species": los,
+        "leaf_syntenies": syn,
+        "costs": draw(coherent_costs(labelled=True)),
+    }
+
+
+@st.composite
+def many_families_case(draw, min_fam=9, max_fam=11, max_obj=4, max_sp=2):
+    """Few leaves over 9..11 families with a prescribed root order (one root order, masks wider than one byte)."""
+    otree, stree, los = draw(trees_and_leaves(max_obj, max_sp, 2, 1))
+    nf = draw(st.integers(min_fam, max_fam))
+    order = list(draw(st.permutations([f"g{i}" for i in range(nf)])))
+    syn = {}
+    for leaf in los:
+        mask = draw(st.integers(1, 2**nf - 1))
+        syn[leaf] = [f for i, f in enumerate(order) if mask >> i & 1]
+    present = {f for v in syn.values() for f in v}
+    case = {
+        "object_tree": nested_to_newick(otree, "O"),
+        "species_tree": nested_to_newick(stree, "S"),
+        "leaf_object_species": los,
+        "leaf_syntenies": syn,
+        "costs": draw(coherent_costs(labelled=True)),
+    }
+    if len(los) > 1:
+        case["leaf_syntenies"]["O0"] = [f for f in order if f in present]
+    return case
+
+
+@st.composite
 def deep_chain_case(draw, min_obj=6, max_obj=8, max_sp=3, max_fam=5, ordered=False, costs="coherent"):
     """A caterpillar object tree (one chain of min_obj-1 .. max_obj-1 nested ancestors) over few species with
     independently drawn leaf contents: the shape on which inheritance runs through several consecutive
